@@ -21,12 +21,14 @@ open LtVerif B
 /-- LSHPACK_ERR_BAD_DATA (-1), LSHPACK_ERR_TOO_LARGE (-2), LSHPACK_ERR_MORE_BUF (-3) -/
 inductive Err where
   | badData | tooLarge | moreBuf
+  | moreBufName     -- MORE_BUF raised before lshpack stored the field name (`lsx.name_len` still 0)
 deriving DecidableEq, Repr
 
 def Err.code : Err → Int
   | .badData => -1
   | .tooLarge => -2
   | .moreBuf => -3
+  | .moreBufName => -3
 
 /-! ### encoder -/
 
